@@ -8,7 +8,7 @@ helper extraction, renamed temporaries, loops vs unrolled code, reordered commut
  sdiv / smod (z3): UDiv(|a|, |b|) * sign with sign = If(sext(a) * sext(b) >= 0, 1, -1);  smod = a - b * sdiv
 A term outside these families is reported as "formulation not understood" (analysis error), never as a violation.
 """
-from sa.peval import Term, Undetermined
+from sa.peval import Term, Undetermined, UnboundLocal
 from sa.repo import AnalysisError
 from sa import transterm as tt
 
@@ -16,6 +16,9 @@ from sa import transterm as tt
 def _term(ck, lang, op, nargs, size):
     try:
         return (tt.z3_term if lang == "z3" else tt.smt2_term)(ck.repo, op, nargs, size)
+    except UnboundLocal as e:
+        ck.ob("R1", "%s:%s:runs" % (lang, op), False, "", "translating %r at %d bits: %s" % (op, size, e))
+        raise AnalysisError("%s translation of %r: %s" % (lang, op, e))
     except Undetermined as e:
         raise AnalysisError("%s translation of %r at %d bits: construct not understood by the partial evaluator (%s)" % (lang, op, size, e))
 
@@ -165,3 +168,80 @@ def z3_extension_rules(ck, rid, where):
             raise AnalysisError("z3 %s: %s" % (op, e))
         ok = isinstance(t, Term) and t.head == head and len(t.args) == 2 and t.args[0] == 8 and _is_leaf(t.args[1], "a")
         ck.ob(rid, "z3:u:%s:composition" % op.split("_")[0], ok, where, "%s of an 8-bit operand is translated as %r, expected %s(8, operand)" % (op, t, head))
+
+
+# ---------------------------------------------------------------------------------------------------------------------
+# structural handlers and memory models, decided on the built term
+
+def _leafname(t):
+    return t.args[0] if isinstance(t, Term) and t.head == "leaf" else None
+
+
+def structure_rules(ck, rid, lang, where):
+    from sa.peval import FakeExpr
+    L = lang
+    # slice
+    sl = FakeExpr("slice", 8, extra={"arg": FakeExpr("id", 32, name="a"), "start": 4, "stop": 12})
+    try:
+        t = tt.handler_term(ck.repo, L, "from_ExprSlice", sl)
+        ex = tt.extract_of(t, L)
+        ck.ob(rid, "slice:extract", ex is not None and ex[0] == 11 and ex[1] == 4 and _leafname(ex[2]) == "a", where,
+              "a[4:12] is translated as %r: expected the extraction of bits 11..4 of the operand" % (t,))
+        # compose: later arguments are more significant, each contributes all of its bits
+        comp = FakeExpr("compose", 32, args=[FakeExpr("id", 8, name="a"), FakeExpr("id", 16, name="b"), FakeExpr("id", 8, name="c")])
+        t = tt.handler_term(ck.repo, L, "from_ExprCompose", comp)
+        pieces = []
+        for x in tt.concat_list(t, L):
+            ex = tt.extract_of(x, L)
+            if ex is not None:
+                pieces.append((_leafname(ex[2]), ex[0], ex[1]))
+            else:
+                pieces.append((_leafname(x), None, 0))
+        want = [("c", 7, 0), ("b", 15, 0), ("a", 7, 0)]
+        norm_p = [(n, (hi if hi is not None else {"a": 7, "b": 15, "c": 7}.get(n)), lo) for (n, hi, lo) in pieces]
+        ck.ob(rid, "compose:later-high", norm_p == want, where,
+              "{a(8), b(16), c(8)} is translated with pieces %s (most significant first): expected c, b, a, each with all of its bits" % (pieces,))
+        # cond: non-zero condition selects src1
+        cd = FakeExpr("cond", 8, extra={"cond": FakeExpr("id", 4, name="c"), "src1": FakeExpr("id", 8, name="x"), "src2": FakeExpr("id", 8, name="y")})
+        t = tt.handler_term(ck.repo, L, "from_ExprCond", cd)
+        ok = False
+        it = tt._ite(t, L)
+        if it is not None:
+            c, a, b = it
+            if L == "z3":
+                nz = isinstance(c, Term) and c.head == "cmp" and c.args[0] == "!=" and _leafname(c.args[1]) == "c" and c.args[2] == 0
+                z = isinstance(c, Term) and c.head == "cmp" and c.args[0] == "==" and _leafname(c.args[1]) == "c" and c.args[2] == 0
+            else:
+                def is_nz(x):
+                    if isinstance(x, Term) and x.head == "sx" and len(x.args) == 3 and x.args[0] == "distinct":
+                        zc = tt._smt_const(x.args[2])
+                        return _leafname(x.args[1]) == "c" and zc is not None and zc[0] == 0
+                    if isinstance(x, Term) and x.head == "sx" and x.args[0] == "and":
+                        rest = [y for y in x.args[1:] if y != "true"]
+                        return len(rest) == 1 and is_nz(rest[0])
+                    return False
+                nz, z = is_nz(c), False
+            ok = (nz and _leafname(a) == "x" and _leafname(b) == "y") or (z and _leafname(a) == "y" and _leafname(b) == "x")
+        ck.ob(rid, "cond:nonzero-selects-src1", ok, where, "c ? x : y is translated as %r: a non-zero condition must select the first source" % (t,))
+    except UnboundLocal as e:
+        ck.ob(rid, "structure:runs", False, where, "a structural handler cannot build its term: %s" % e)
+    except Undetermined as e:
+        raise AnalysisError("%s structural handlers: construct not understood by the partial evaluator (%s)" % (lang, e))
+
+
+def memory_rules(ck, rid, lang, where):
+    try:
+        for endian, want, label in (("<", [3, 2, 1, 0], "little"), (">", [0, 1, 2, 3], "big")):
+            t = tt.mem_term(ck.repo, lang, endian, 32)
+            offs = [tt.byte_offset(x, lang) for x in tt.concat_list(t, lang)]
+            ck.ob(rid, "mem.get:%s" % label, offs == want, where,
+                  "a 32-bit %s-endian read concatenates the bytes at offsets %s (most significant first); expected %s" % (label, offs, want))
+        t = tt.mem_term(ck.repo, lang, "<", 12)
+        ex = tt.extract_of(t, lang)
+        offs = [tt.byte_offset(x, lang) for x in tt.concat_list(ex[2], lang)] if ex else None
+        ck.ob(rid, "mem.get:unaligned-size", ex is not None and ex[0] == 11 and ex[1] == 0 and offs == [1, 0], where,
+              "a 12-bit read is translated as %r: expected the low 12 bits of the two bytes read" % (t,))
+    except UnboundLocal as e:
+        ck.ob(rid, "mem.get:runs", False, where, "the memory model cannot build its term: %s" % e)
+    except Undetermined as e:
+        raise AnalysisError("%s memory model: construct not understood by the partial evaluator (%s)" % (lang, e))
